@@ -33,6 +33,20 @@ pub enum StepKind {
 
 pub type Finding = (&'static str, String);
 
+/// Findings after which monitor and decoder no longer agree on where they are (or the decoder
+/// object is in an undefined state): exploration cannot meaningfully continue past them.
+/// After every other finding (a wrong count, a non-canonical frame delivered, a decoder that is
+/// not fresh after a start sequence) both sides are still in step, and a check that does not
+/// report that class keeps exploring.
+pub fn is_desync(class: &str) -> bool {
+    class.contains("panic")
+        || class.starts_with("C08 M-start: start sequence after noise not reported/detected")
+        || class.starts_with("C08 M-start: a start sequence is reported inside noise")
+        || class.starts_with("C17 M-tile: output while idle")
+        || class.starts_with("C02 M-sound: payload reported outside any frame")
+        || class.starts_with("C17 M-tile: in-frame discarded report")
+}
+
 impl Mon {
     pub fn new(cap: Option<usize>) -> Mon {
         Mon { in_frame: false, unacc: 0, scan: 0, frame: Vec::new(), cap }
